@@ -195,6 +195,35 @@ def monitor_write(op, impl_main, xnet, want):
     return v
 
 
+TYPE_CODE = {"DATA": 0, "HEADERS": 1, "PRIORITY": 2, "RST_STREAM": 3, "SETTINGS": 4, "PUSH_PROMISE": 5, "PING": 6, "GOAWAY": 7,
+             "WINDOW_UPDATE": 8, "CONTINUATION": 9}
+
+
+def monitor_write_header(op, impl_main):
+    """a frame written after SetFlags(<any octet>): the caller's bits may change what the frame means, but the nine
+    header octets keep their layout (RFC 7540 4.1): length of what follows, the type's code, the caller's bits among the
+    flags, R clear, the stream id"""
+    if not impl_main.startswith("ok "):
+        return [("write-failed", impl_main[:100])]
+    h = impl_main.split(" ")[1]
+    b = bytes.fromhex(h) if h != "-" else b""
+    t = op.split(" ")[1]
+    fl, sid = int(field(op, "fl")), int(field(op, "s"))
+    if len(b) < 9:
+        return [("written-header-layout", "fewer than nine octets written")]
+    length, typ, flags, stream = int.from_bytes(b[:3], "big"), b[3], b[4], int.from_bytes(b[5:9], "big")
+    bad = []
+    if length != len(b) - 9:
+        bad.append("length %d announces %d octets" % (length, len(b) - 9))
+    if typ != TYPE_CODE.get(t, -1):
+        bad.append("type octet %#x for %s" % (typ, t))
+    if flags & fl != fl:
+        bad.append("flags octet %#x lost bits of %#x" % (flags, fl))
+    if stream != sid & 0x7fffffff:
+        bad.append("stream field %#x for stream %d" % (stream, sid))
+    return [("written-header-layout", "; ".join(bad))] if bad else []
+
+
 def file_violation(ctx, known_hits, op, kind, text, **kw):
     for k in ctx.known:
         pred = CLASSES.get(k["cls"])
@@ -232,10 +261,11 @@ def judge(ctx, prop, ops, impl, model, known_hits, stats):
         elif kind == "frame.write":
             xnet = aside[len("xnet="):] if aside.startswith("xnet=") else ""
             want = bside[len("want="):] if bside.startswith("want=") else ""
-            for (k, t) in monitor_write(o, am, xnet, want):
+            for (k, t) in (monitor_write(o, am, xnet, want) if field(o, "fl") == "0" else monitor_write_header(o, am)):
                 stats["v:" + k] += 1
                 file_violation(ctx, known_hits, o, k, t, impl=am[:600], want=want[:600], xnet=xnet[:600])
-            if am.startswith("ok "):
+            if am.startswith("ok ") and field(o, "fl") == "0":
+                # (flags the caller set through SetFlags are the caller's business: only the layout is judged for those)
                 written.append((o, am.split(" ")[1]))
     return written
 
